@@ -188,7 +188,7 @@ theorem render_injective {tab nl : Char} (hne : tab ≠ nl) (ht : IsSep tab) (hn
     (h : render tab nl l1 = render tab nl l2) : l1 = l2 :=
   renderW_injective hne toString_int_injective (fun _ => ⟨not_mem_toString_int ht, not_mem_toString_int hn⟩) l1 l2 h
 
-theorem isSep_tab : IsSep '\t' := ⟨by decide, by decide⟩
-theorem isSep_newline : IsSep '\n' := ⟨by decide, by decide⟩
+theorem isSep_tab : IsSep '\t' := ⟨by rfl, by simp⟩
+theorem isSep_newline : IsSep '\n' := ⟨by rfl, by simp⟩
 
 end Fcppt.C09
